@@ -105,7 +105,13 @@ class FakeRequest:
     def write(self, b):
         self.out.append(b)
 
+    gone = False
+
     def finish(self):
+        if self.gone:
+            # what twisted.web.http.Request.finish does once the client has left
+            raise RuntimeError('Request.finish called on a request after its connection was lost; '
+                               'use Request.notifyFinish to keep track of this.')
         self.finished = True
 
 
